@@ -143,12 +143,96 @@ def chunk(job):
     return part
 
 
+# -- a fresh interpreter in which the application lowered the mpmath precision *before* it
+#    imported the library (constants computed at import time carry that precision for good)
+_FRESH = r"""
+import json, sys
+sys.path.insert(0, sys.argv[1])
+import mpmath
+mpmath.mp.prec = 24
+from plotink import ebb_calc
+out = []
+for name, args in json.load(sys.stdin):
+    try:
+        got = getattr(ebb_calc, name)(*args)
+        out.append(list(got) if isinstance(got, tuple) else got)
+    except Exception as exc:
+        out.append({"raised": repr(exc)})
+    if mpmath.mp.prec > 24 and name in ("rate_t3", "max_rate_t3"):
+        mpmath.mp.prec = 24
+json.dump(out, sys.stdout)
+"""
+
+SPECIAL = {"move_dist_lt": [(-1073741824, 0, 2, "clear"), (-5, 0, 7, "clear"), (3, -8, 9, "clear"),
+                            (-2147483647, 0, 1, "clear"), (1223372258, -217, 7667213, 1528960515)],
+           "calculate_lm": [(3, -1073741824, 0, "clear"), (5, -400000000, 0, "clear"),
+                            (2, -7, -3, "clear")],
+           "move_dist_t3": [(2, -1073741824, 0, 0), (7, -5, 0, 0), (9, 3, -8, 1), (5, 0, 0, -7)],
+           "rate_t3": [(10, 2147483000, 5, 1), (3, -2147483000, -7, 2)],
+           "max_rate_t3": [(10, 2147483000, 5, 1), (41, -2000000000, 3, -5)]}
+
+
+def fresh_import_cases(target):
+    return [tuple(a) for a in SPECIAL[target]] + \
+        [t for t in tuples()[::13] if not (target != "move_dist_lt" and target != "calculate_lm"
+                                           and t[-1] == "clear")]
+
+
+def run_fresh(target, cases):
+    """[message] for the cases answered wrongly by a fresh low-precision-import interpreter."""
+    import json                             # pylint: disable=import-outside-toplevel
+    import os                               # pylint: disable=import-outside-toplevel
+    import subprocess                       # pylint: disable=import-outside-toplevel
+    import sys                              # pylint: disable=import-outside-toplevel
+    import plotink                          # pylint: disable=import-outside-toplevel
+    root = os.path.dirname(os.path.dirname(os.path.abspath(plotink.__file__)))
+    proc = subprocess.run([sys.executable, "-B", "-c", _FRESH, root], check=False, timeout=300,
+                          input=json.dumps([[target, list(c)] for c in cases]),
+                          capture_output=True, text=True)
+    if proc.returncode != 0:
+        return [f"a fresh interpreter that lowers mpmath precision before importing "
+                f"plotink.ebb_calc failed: {proc.stderr[-300:]}"] * 1, []
+    answers = json.loads(proc.stdout)
+    bad = []
+    for args, got in zip(cases, answers):
+        if isinstance(got, dict):
+            if verdict(target, args, None) is not None:
+                bad.append((args, f"{target}{tuple(args)!r} raised {got['raised']}"))
+            continue
+        got = tuple(got) if isinstance(got, list) else got
+        msg = verdict(target, args, got)
+        if msg:
+            bad.append((args, msg))
+    return [], [(a, m + " - in a fresh interpreter whose mpmath precision was 24 bits when "
+                 "plotink.ebb_calc was first imported") for a, m in bad]
+
+
+def explore_fresh(targets):
+    part = core.Part()
+    for target in targets:
+        cases = fresh_import_cases(target)
+        crashed, bad = run_fresh(target, cases)
+        for msg in crashed:
+            part.violation(f"fresh_import:{target}", msg, {"kind": "calc_fresh", "target": target,
+                                                          "args": list(cases[0])})
+        for args, msg in bad:
+            part.violation(f"fresh_import:{target}:{args}", msg,
+                           {"kind": "calc_fresh", "target": target, "args": list(args)})
+        part.count("fresh_import_cases", len(cases))
+    return part
+
+
 def explore(ctx, targets):
     jobs = [(t, items) for t in targets for items in core.split(tuples(), 16)]
-    return core.fan_out(ctx, chunk, jobs)
+    part = core.fan_out(ctx, chunk, jobs)
+    part.merge(explore_fresh(targets))
+    return part
 
 
 def replay(case):
+    if case.get("kind") == "calc_fresh":
+        crashed, bad = run_fresh(case["target"], [tuple(case["args"])])
+        return crashed + [m for _a, m in bad]
     return run_history(case["target"], tuple(case["args"]))
 
 
